@@ -493,6 +493,12 @@ func VerifSentPHWrap(h SentPacketHandler) *VerifSentPH {
 	return v
 }
 
+// AppGenPendingSkip: the application-data generator will skip this number at the next Pop (Peek already steps over it).
+func (v *VerifSentPH) AppGenPendingSkip() (int64, bool) {
+	next, toSkip := v.appGenState()
+	return next, next == toSkip
+}
+
 // AppSkipped: the skipped packet numbers the application-data history currently records.
 func (v *VerifSentPH) AppSkipped() []int64 {
 	var out []int64
